@@ -16,6 +16,18 @@ CHECKS = {
  "C14": ("model_checking", "bounded-exhaustive enumeration of item lists and key-repetition patterns on the real map conversions, reference map model stepped per item",
          "odometer", "every item list up to length 4/6 over a 9-symbol alphabet and every key-repetition pattern x good/bad mask up to length 6/8 for all 25 map instantiations, compared with a reference map model (entries or leaf multiset); Hash and BTree twins compared",
          "the element type's own conversion defines per-item value outcomes; leaf order not compared", "DESIGN.md §4 C14"),
+ "C01": ("model_checking", "bounded-exhaustive exploration of item sequences on compiled derived receivers, reference interpreter stepped alongside (value-tree equality)",
+         "odometer", "every item sequence up to the bound, for every generated receiver of the struct corpus (13 field kinds x container configs x six traits), is parsed by the real derived code; on mistake-free inputs the value tree must equal the reference interpreter's",
+         "reference interpreter written from the documented semantics; expected message texts come from darling's own constructors; bounds: sequences <= 3 (quick) / 4 (thorough) over per-receiver alphabets, 583 (quick) receivers", "DESIGN.md §4 C01"),
+ "C02": ("model_checking", "bounded-exhaustive exploration of item sequences (valid and invalid items) on compiled derived receivers; reference interpreter predicts the multiset of error leaves",
+         "odometer", "same exploration as C01; Ok iff no mistake; the multiset of flattened leaves (message, location path) and len() must equal the interpreter's",
+         "reference interpreter written from the documented semantics; expected message texts come from darling's own constructors; bounds: sequences <= 3 (quick) / 4 (thorough) over per-receiver alphabets, 583 (quick) receivers; leaf order not compared", "DESIGN.md §4 C02"),
+ "C03": ("model_checking", "the C02 exploration with real column spans (proc-macro2 span-locations) + stateright BFS over with_span/at/multiple/flatten histories",
+         "odometer+stateright", "every expected leaf's explicit span must lie inside the offending item/value (containment), unspanned only for root absences (then the diagnostic text carries the path), compile_error! tokens sit at the leaf spans; algebra: with_span never overwrites, flatten/diagnostics give each leaf its own or nearest enclosing collection's span",
+         "reference interpreter written from the documented semantics; expected message texts come from darling's own constructors; bounds: sequences <= 3 (quick) / 4 (thorough) over per-receiver alphabets, 583 (quick) receivers", "DESIGN.md §4 C03"),
+ "C07": ("exploration", "exhaustive enumeration under catch_unwind: the C02 sequence exploration, a hostile-item sweep over every corpus receiver, and every built-in conversion target x a menu of meta items",
+         "odometer", "no entry point may unwind: all sequences of the struct corpus, ~500 hostile inputs per receiver (non-meta bodies, wrong forms, 40-digit numbers, depth-64 nesting), 130+ built-in targets x 64 items in two contexts",
+         "panic=unwind; allocation failure / stack overflow would abort the process and surface as a machinery error", "DESIGN.md §4 C07"),
 }
 PENDING = {}
 props = [json.loads(l) for l in open(os.path.join(V, "properties.jsonl"))]
@@ -40,7 +52,7 @@ for p in props:
         na.append({"property_id": i, "reason": PENDING.get(i, "check not built yet in this round (see DESIGN.md §9 build order); not claimed")})
 m = {
  "version": 1,
- "setup_cmd": "cd harness && CARGO_NET_OFFLINE=true cargo build --offline -q -p vcheck",
+ "setup_cmd": "cd harness && CARGO_NET_OFFLINE=true cargo build --offline -q -p vcheck && VERIF_DIR=/verif ./target/debug/vcheck setup",
  "hooks": {"guard": "--cfg darling_verif", "enable": "no hooks are needed: every observation point is public API (DESIGN.md §6); checks build /repo as a cargo path dependency of /verif/harness",
            "baseline_off_cmd": "cd /repo && cargo test --workspace --no-fail-fast --offline", "source_commits": [], "add_only": True},
  "engines": [
